@@ -347,6 +347,9 @@ func Run(rc *core.RunCtx) {
 		}
 		if next < n && (inflight == 0 || overlapped && inflight < 3) {
 			acts = append(acts, action{kind: "launch"})
+			if overlapped && n-next >= 2 && inflight == 0 {
+				acts = append(acts, action{kind: "launch2"}) // two requests truly simultaneous
+			}
 		}
 		if sc != nil {
 			snap := sc.snapshot()
@@ -375,6 +378,13 @@ func Run(rc *core.RunCtx) {
 			w.Logf("launch", fmt.Sprint(next), "%v", opsList[next])
 			launch(next)
 			next++
+		case "launch2":
+			callT[next], callT[next+1] = 2*stepNo, 2*stepNo
+			w.Logf("launch2", fmt.Sprint(next), "%v %v", opsList[next], opsList[next+1])
+			launch(next)
+			launch(next + 1)
+			next += 2
+			w.Count("burst_launches")
 		case "evict":
 			sc.mu.Lock()
 			delete(sc.m, a.key)
